@@ -4,4 +4,4 @@ Require Extraction.
 Require ExtrOcamlBasic.
 From Pika Require Import Gen.GenIni Model.Config.
 Extraction Language OCaml.
-Extraction "m.ml" run expand tok_prepend split_unix opt_key builtin_ini pika_options.
+Extraction "m.ml" run read_x no_entries tok_prepend split_unix opt_key builtin_ini pika_options.
